@@ -420,6 +420,7 @@ def run(chk):
     middleware_rule(chk, repo)
     hunt3_rules(chk, repo)
     hunt4_rules(chk, repo)
+    hunt5_rules(chk, repo)
     # ---- C07.capacity (dtable) ---------------------------------------------------------------------------------
     _capacity(chk, avail)
 
@@ -584,8 +585,23 @@ def _close_rule(chk, repo, closei):
             chk.ok("C07.close", closei, f"close(): `{k}` in the finally block")
         else:
             chk.violation("C07.close", closei, "finally block of _close_immediately", k, "close() leaves accounting behind when closing fails half-way")
+    # (fifth hunt, F293) "fails every waiter": with the error a request gets that already holds a slot - a cancel() makes session.get() raise a
+    # bare CancelledError in a task nobody cancelled (task.cancelling() == 0): `except aiohttp.ClientError` does not run, a TaskGroup takes the
+    # request for cancelled and finishes without an error
+    wcalls = [inner for b in t.finalbody for loop in ast.walk(b) if isinstance(loop, ast.For) and "self._waiters" in norm.raw(loop.iter)
+              for inner in ast.walk(loop) if isinstance(inner, ast.Call) and isinstance(inner.func, ast.Attribute) and inner.func.attr in ("cancel", "set_exception")]
+    bare = [c for c in wcalls if c.func.attr == "cancel"]
+    if cancel and bare:
+        chk.violation("C07.close.waiters", bare[0], K.short(bare[0]), "if not keyed_waiter.done(): keyed_waiter.set_exception(ClientConnectionError('Connector is closed.'))",
+                      "closing the connector cancels the futures of the requests parked in the pool queue: session.get() raises a bare CancelledError although nobody cancelled its task, while a request that holds a slot and a waiter that was woken get ClientConnectionError('Connector is closed.') - the application's `except aiohttp.ClientError` never runs")
+    elif cancel:
+        guarded = all(any(not l.pos and l.text.endswith(".done()") for l in PC.units(PC.pc(K.stmt_of(c), raw=True))) for c in wcalls)
+        if guarded:
+            chk.ok("C07.close.waiters", wcalls[0], "close(): a parked waiter that is still pending is failed with an exception (not cancelled)")
+        else:
+            chk.violation("C07.close.waiters", wcalls[0], K.short(wcalls[0]), "if not keyed_waiter.done():", "set_exception() on a waiter that was woken or cancelled already raises InvalidStateError out of close()")
     if cancel:
-        chk.ok("C07.close", closei, "close(): every queued waiter is cancelled in the finally block")
+        chk.ok("C07.close", closei, "close(): every queued waiter is failed in the finally block")
     else:
         chk.violation("C07.close", closei, "finally block of _close_immediately", "keyed_waiter.cancel() for every waiter", "close() does not fail the queued waiters: they wait forever")
     # the closed latch is set before anything else and tested first
@@ -645,6 +661,41 @@ def _capacity(chk, avail):
     if not bad:
         chk.ok("C07.capacity", avail, f"capacity function agrees with the reference on all {rows} rows of the (limit, limit_per_host, |acquired|, |acquired[key]|) grid 0..3")
         chk.exhaustive_domains.append(f"C07.capacity: {rows} rows")
+
+
+def hunt5_rules(chk, repo):
+    """Rules written after the fifth defect hunt (F291, F292)."""
+    from rules import C18
+    C18.tls_release_rule(chk, repo, "C07.release.abort")
+    # ---- C07.key.value: whatever can be a component of the pool key compares by value --------------------------------------------------------------------
+    # limit_per_host and reuse are per ConnectionKey.  A component whose class of the package compares by identity makes every request that
+    # builds a fresh, equal value (`ssl=aiohttp.Fingerprint(digest)`, the call shown in the docs) a pool of its own.
+    ck = repo.cls("aiohttp/client_reqrep.py", "ConnectionKey")
+    names = set()
+    for a in ck.node.body:
+        if isinstance(a, ast.AnnAssign):
+            ann = a.annotation
+            if isinstance(ann, ast.Constant) and isinstance(ann.value, str):
+                try:
+                    ann = ast.parse(ann.value, mode="eval").body
+                except SyntaxError:
+                    continue
+            names |= {n.id for n in ast.walk(ann) if isinstance(n, ast.Name)}
+    nk = 0
+    for nm in sorted(names):
+        r_ = repo.resolve_name(ck.module, nm)
+        if not (r_ and r_[0] == "class"):
+            continue
+        ci = r_[1]
+        if any(b in ("NamedTuple", "Enum", "IntEnum", "str", "int", "tuple") for b in ci.base_names()) or any("dataclass" in norm.raw(d) or "attr.s" in norm.raw(d) for d in ci.node.decorator_list):
+            continue
+        nk += 1
+        if "__eq__" in ci.methods and "__hash__" in ci.methods:
+            chk.ok("C07.key.value", ci.node, f"{ci.name} (a possible component of ConnectionKey) defines __eq__ and __hash__")
+        else:
+            chk.violation("C07.key.value", ci.node, f"class {ci.name}", "__eq__ / __hash__ on the value",
+                          f"{ci.name} is a component of ConnectionKey but compares by identity: every request that passes a fresh, equal {ci.name} gets a connection key - a pool and a limit_per_host - of its own: with limit_per_host=1 two concurrent requests to one endpoint run on 2 connections, five sequential ones open 5 TLS connections and none is reused")
+    chk.expect_count("C07.key.value", nk, 1, "classes of the package that can be a component of ConnectionKey")
 
 
 def hunt4_rules(chk, repo):
